@@ -203,7 +203,7 @@ def main(argv):
     for e in known:
         if e.get('status', 'open') != 'open':
             continue
-        rp = harness.replay_inputs(e['contract'], e['config'], e['input'])
+        rp = harness.replay_inputs(e['contract'], e['config'], e['input'], lenient=True)
         still = bool(rp.get('replayable') and rp.get('failed_clauses'))
         known_lines.append('KNOWN-FINDING: property=%s %s%s' % (prop, e['what'], '' if still else ' (recorded input no longer fails)'))
 
